@@ -206,7 +206,19 @@ def run(R, tier):
     # *ESE / *SRE: store the u8 parameter, read it back, nothing else changes
     for tname, reg in (("EseCommand", "ese"), ("SreCommand", "sre")):
         hb_ = handler(uc, tname, "event")
-        gar = [c.gargs() for c in hb_.calls() if c.name.endswith("next_data")]
+        # the typed pull may sit in a private helper the handler hands its parameters to
+        seen_b, todo, gar = set(), [hb_], []
+        while todo:
+            b_ = todo.pop()
+            if b_.npath in seen_b:
+                continue
+            seen_b.add(b_.npath)
+            for c in b_.calls():
+                if c.name.endswith("next_data"):
+                    gar.append(c.gargs())
+                cb = next((x for x in uc.bodies if x.npath == c.rname), None)
+                if cb is not None and cb.j.get("vis") == "Restricted" and cb.kind in ("Fn", "AssocFn"):
+                    todo.append(cb)
         bad = [] if (gar and gar[0][-1] == "u8") else ["the parameter is not read as a u8 (0..255): %s" % gar]
         for v in (0, 1, 0x80, 0xFF, 0x5A):
             hb_, before, rs = effect(tname, "event", fresh_dev(0x12, 0x34, 0x56, 1), params=[v])
